@@ -205,11 +205,12 @@ def with_clock(modname, fn):
 
 
 def _cg_run(values, k, objname, sw, limit):
+    """Calls the real anytime algorithm directly (prtpy.partition cannot represent the no-solution-yet result None)."""
+    from prtpy import BinnerKeepingContents
     kw = cg_kwargs(objname, sw)
     if limit is not None:
         kw["time_limit"] = limit
-    (res, _, _), reads = with_clock("prtpy.partitioning.complete_greedy",
-                                    lambda: run_partition("cg", values, k, "list", **kw))
+    res, reads = with_clock("prtpy.partitioning.complete_greedy", lambda: cg(BinnerKeepingContents(), k, list(values), **kw))
     return res, reads
 
 
@@ -235,7 +236,10 @@ def _c11_cg_ok(values, k, objname, sw):
         val = spec.objective_value(objname, [num(s) for s in sums])
         if not first_seen:
             first_seen = True
-            if sorted(num(s) for s in sums) != lpt_sums:
+            h3 = sw[2] and objname == "min-max"
+            # Korf's heuristic 3 (min-max only) completes a branch by putting all remaining items into the smallest bin:
+            # the first leaf then has the LPT *value* but not necessarily the LPT sums.
+            if (not h3 and sorted(num(s) for s in sums) != lpt_sums) or val != spec.objective_value(objname, lpt_sums):
                 return f"limit {L}: first solution {sorted(num(s) for s in sums)} is not the LPT solution {lpt_sums}"
         if prev is not None and val > prev:
             return f"limit {L}: objective got worse ({prev} -> {val}) as the limit grew"
@@ -262,12 +266,13 @@ PLACEHOLDER = "placeholder"
 
 
 def _cbldm_run(values, d, limit):
+    from prtpy import BinnerKeepingContents
     kw = {}
     if d is not None:
         kw["partition_difference"] = d
     if limit is not None:
         kw["time_limit"] = limit
-    (res, _, _), reads = with_clock("prtpy.partitioning.cbldm", lambda: run_partition("cbldm", values, 2, "list", **kw))
+    res, reads = with_clock("prtpy.partitioning.cbldm", lambda: cbldm(BinnerKeepingContents(), 2, list(values), **kw))
     return res, reads
 
 
